@@ -85,7 +85,7 @@ def r_matchvisitors(root):
                 rep(("C20",), "C20.d", W, "ignore_case %s reaches the match built for %r (autokwd %s)" % (ic, lit, "on" if ak else "off"), okc, "with ignore_case=%s the match object built for the literal %r has ignore_case=%r" % (ic, lit, v.get(".ignore_case") if isinstance(v, dict) else None))
     # escapes are decoded first
     self_, mm = new_visitor(False, True)
-    for spelled, text, kw in (("caf\\xe9", "café", True), ("a\\tb", "a\tb", False), ("it\\'s", "it's", False), ("\\\\", "\\", False), ("\\u00e9t\\u00e9", "été", True)):
+    for spelled, text, kw in (("caf\\xe9", "café", True), ("a\\tb", "a\tb", False), ("it\\'s", "it's", False), ("\\\\", "\\", False), ("\\u00e9t\\u00e9", "été", True), ("\u2192\\t", "\u2192\t", False), ("caf\u00e9\\x41", "caf\u00e9A", True), ("\u00fc\\\\", "\u00fc\\", False)):
         k, v = visit(vs, self_, {".kind": "node", ".position": 3}, ["'%s'" % spelled])
         ok = k == "ret" and isinstance(v, dict) and ((v.get(".kind") == "RegExMatch" and v.get(".to_match") in (text + "\\b", re.escape(text) + "\\b") and v.get(".str_repr") == text) if kw else (v.get(".kind") == "StrMatch" and v.get(".to_match") == text))
         rep(("C21", "C01"), "C21.d", W, "literal spelled %s" % spelled, ok, "the grammar literal spelled '%s' denotes the text %r; with autokwd on it becomes %s; documented: %s of the decoded text (escapes are decoded before the keyword classification)" % (spelled, text, describe(k, v), "a keyword RegExMatch" if kw else "a StrMatch"), witness="'%s'" % spelled)
